@@ -252,6 +252,44 @@ pub fn number_is_safe_integer(
     }
 }
 
+/// Exact decimal expansion of the magnitude of a finite, non-zero number: its significant
+/// digits (ASCII, the first one non-zero) and the decimal exponent of the first digit.
+fn exact_decimal_digits(n: f64) -> (Vec<u8>, i32) {
+    // A double has at most 767 significant decimal digits, so this rendering is exact
+    let sci = format!("{:.766e}", n.abs());
+    let (mantissa, exponent) = sci.split_once('e').unwrap_or((sci.as_str(), "0"));
+    let digits = mantissa.bytes().filter(u8::is_ascii_digit).collect();
+    (digits, exponent.parse().unwrap_or(0))
+}
+
+/// Keep the first `keep` digits of an exact expansion, rounding half up (the specification's
+/// "if there are two such n, pick the larger n"). The result has `keep` digits, or `keep + 1`
+/// when the carry runs out of the front (99.5 -> 100).
+fn round_half_up(digits: &[u8], keep: usize) -> Vec<u8> {
+    let mut kept: Vec<u8> = digits
+        .iter()
+        .copied()
+        .chain(core::iter::repeat(b'0'))
+        .take(keep)
+        .collect();
+    if digits.get(keep).is_some_and(|d| *d >= b'5') {
+        let mut carry = true;
+        for d in kept.iter_mut().rev() {
+            if *d == b'9' {
+                *d = b'0';
+            } else {
+                *d += 1;
+                carry = false;
+                break;
+            }
+        }
+        if carry {
+            kept.insert(0, b'1');
+        }
+    }
+    kept
+}
+
 // Number.prototype.toFixed
 pub fn number_to_fixed(
     interp: &mut Interpreter,
@@ -266,8 +304,39 @@ pub fn number_to_fixed(
             "toFixed() digits argument must be between 0 and 100",
         ));
     }
+    let digits = digits as usize;
 
-    let result = format!("{:.prec$}", n, prec = digits as usize);
+    if !n.is_finite() || n.abs() >= 1e21 {
+        return Ok(Guarded::unguarded(JsValue::String(JsString::from(
+            format_number_js(n),
+        ))));
+    }
+
+    // The integer closest to |n| * 10^digits (ties go up), as decimal digits
+    let mut scaled: Vec<u8> = if n == 0.0 {
+        Vec::new()
+    } else {
+        let (exact, exponent) = exact_decimal_digits(n);
+        match usize::try_from(exponent as i64 + 1 + digits as i64) {
+            Ok(keep) => round_half_up(&exact, keep),
+            Err(_) => Vec::new(),
+        }
+    };
+    // At least one digit in front of the decimal point
+    while scaled.len() <= digits {
+        scaled.insert(0, b'0');
+    }
+    let int_len = scaled.len() - digits;
+
+    let mut result = String::new();
+    if n < 0.0 {
+        result.push('-');
+    }
+    result.extend(scaled.iter().take(int_len).map(|d| *d as char));
+    if digits > 0 {
+        result.push('.');
+        result.extend(scaled.iter().skip(int_len).map(|d| *d as char));
+    }
     Ok(Guarded::unguarded(JsValue::String(JsString::from(result))))
 }
 
